@@ -1,4 +1,181 @@
-import AwModel.Store.Commit
-/-! # C06 — placeholder while the theorems are being written (no claims yet) -/
+import AwProofs.Lemmas.Commit
+/-!
+# C06 — after a crash the database holds a prefix of what was done, minus a bounded tail
+
+Property theorems only, on the commit machine `Aw.Store.Commit` (`cur` = what the connection sees,
+`dur` = what a reopened database holds). Definitions used (all in `AwProofs/Lemmas/Commit.lean`):
+
+* `COp D`, `cstep`, `crun`, `cok`: operations carrying their clock reading, the state after one
+  operation (also when it raises), after a list of operations, and whether the operation returned.
+* `curHist c0 ops`: the ghost-free history of connection states — every value `cur` takes after
+  each ELEMENTARY write of `ops` (one per executed statement; `insert_many` one per upsert and one
+  per inserted row; `delete_bucket` its result state), computed on the table model `Sqlite.St`
+  alone: it does not look at `n`, `last`, `pend`, `txn`, `lazy` or `log`, so it is independent of
+  every commit decision. `lastD s0 h` is the last state of `h`, or `s0` if `h` is empty.
+* `Init c0`: `c0.dur = c0.cur ∧ c0.pend = [] ∧ c0.n = 0` (a freshly opened store).
+
+All theorems quantify over arbitrary histories (any operations, any arguments, any clock readings).
+-/
 namespace AwProofs.C06
+open Aw Aw.Store Aw.Store.Commit AwProofs.CommitL
+variable {D : Type}
+
+/-- The ghost history is faithful: after any history the connection state is the last state of
+    `curHist` (so `curHist` really lists the values of `cur`). -/
+theorem cur_is_last_of_history (c0 : CSt D) (h0 : Init c0) (ops : List (COp D)) :
+    (crun c0 ops).cur = lastD c0.cur (curHist c0 ops) :=
+  (pre_run c0 h0.1 h0.2.1 ops).1
+
+/-- crash_is_prefix, full form: after any history the durable state is the connection state after
+    a PREFIX `pre` of the elementary writes, and the lost tail `post` consists of exactly
+    `pend.length` elementary writes. -/
+theorem durable_is_prefix_minus_pending (c0 : CSt D) (h0 : Init c0) (ops : List (COp D)) :
+    ∃ pre post, curHist c0 ops = pre ++ post ∧ (crun c0 ops).dur = lastD c0.cur pre ∧
+      post.length = (crun c0 ops).pend.length :=
+  (pre_run c0 h0.1 h0.2.1 ops).2
+
+/-- crash_is_prefix: after any history `dur` is the initial state or one of the values `cur` held
+    at an earlier point of the history. -/
+theorem durable_is_past_state (c0 : CSt D) (h0 : Init c0) (ops : List (COp D)) :
+    (crun c0 ops).dur ∈ c0.cur :: curHist c0 ops := by
+  obtain ⟨pre, post, e, hd, _⟩ := durable_is_prefix_minus_pending c0 h0 ops
+  rw [hd, e]
+  have := lastD_mem c0.cur pre
+  simp only [List.mem_cons, List.mem_append] at this ⊢
+  rcases this with h | h
+  · exact Or.inl h
+  · exact Or.inr (Or.inl h)
+
+/-- Bucket creation, update and deletion are durable as soon as they return: in ANY state, after a
+    bucket operation that returns normally everything executed so far is durable. -/
+theorem bucket_ops_durable (c : CSt D) (op : COp D) (hb : op.isBucketOp = true)
+    (hok : cok c op = true) :
+    (cstep c op).dur = (cstep c op).cur ∧ (cstep c op).pend = [] := by
+  rcases bucket_form c op hb with ⟨_, s, _, h⟩ | ⟨h, _⟩
+  · rw [h]; exact ⟨rfl, rfl⟩
+  · rw [h] at hok; cases hok
+
+/-- The same when `update_bucket` (with at least one field) reports a missing bucket: the commit
+    has happened before the `get_metadata` that raises. -/
+theorem bucket_ops_durable_update_missing (c : CSt D) (now : Int) (b : String) (u : Upd)
+    (hu : u.isEmpty = false) :
+    (cstep c (.updateBucket now b u)).dur = (cstep c (.updateBucket now b u)).cur ∧
+    (cstep c (.updateBucket now b u)).pend = [] := by
+  simp only [cstep, Commit.updateBucket, hu]
+  cases Sqlite.updateBucket c.cur b u <;> exact ⟨rfl, rfl⟩
+
+/-- The same for `delete_bucket`, whether it returns or reports a missing bucket. -/
+theorem bucket_ops_durable_delete (c : CSt D) (now : Int) (b : String) :
+    (cstep c (.deleteBucket now b)).dur = (cstep c (.deleteBucket now b)).cur ∧
+    (cstep c (.deleteBucket now b)).pend = [] := by
+  simp only [cstep, Commit.deleteBucket]
+  cases Sqlite.deleteBucket c.cur b <;> exact ⟨rfl, rfl⟩
+
+/-- A single-event or bucket-level operation is never split: in ANY state, after `insert_one`,
+    `replace`, `replace_last`, `delete`, `create_bucket`, `update_bucket` or `delete_bucket` the
+    durable state is what it was before (nothing committed) or the new connection state
+    (everything, this operation included, committed) — never a state in between. -/
+theorem single_op_atomic (c : CSt D) (op : COp D)
+    (h : op.isSingleEventWrite = true ∨ op.isBucketOp = true) :
+    (cstep c op).dur = c.dur ∨ (cstep c op).dur = (cstep c op).cur := by
+  rcases h with h | h
+  · rcases single_form c op h with ⟨_, s, _, e⟩ | ⟨_, _, e⟩
+    · rw [e]; exact evw_atomic c s op.now
+    · rw [e]; exact Or.inl rfl
+  · rcases bucket_form c op h with ⟨_, s, _, e⟩ | ⟨_, _, e | e | e⟩ <;> rw [e]
+    · exact Or.inr rfl
+    · exact Or.inr rfl
+    · exact Or.inl rfl
+    · exact Or.inl rfl
+
+/-- At most 50 buffered event writes, deletions included: on the lazy store, after any history,
+    `pend.length ≤ n ≤ 50`. -/
+theorem pending_bounded (c0 : CSt D) (h0 : Init c0) (hl : c0.lazy = true) (ops : List (COp D)) :
+    (crun c0 ops).pend.length ≤ (crun c0 ops).n ∧ (crun c0 ops).n ≤ 50 ∧
+    (crun c0 ops).pend.length ≤ 50 := by
+  have := (h0.bnd hl).run ops
+  exact ⟨this.2.1, this.2.2, Nat.le_trans this.2.1 this.2.2⟩
+
+/-- Inside `insert_many` (after its upserts and its bulk INSERT, before the final conditional
+    commit) the bound is 50 + the number of rows. -/
+theorem pending_bounded_inside_insertMany (c0 : CSt D) (h0 : Init c0) (hl : c0.lazy = true)
+    (ops : List (COp D)) (now : Int) (b : String) (es : List (Ev D)) :
+    (insertManyMid (crun c0 ops) now b es).pend.length ≤
+      50 + (es.filter (fun e => e.id.isNone)).length := by
+  have := ((h0.bnd hl).run ops).mid now b es
+  omega
+
+/-- On the auto-committing store every completed operation is durable: in ANY state with
+    `lazy = false`, after an event write or bucket operation that returns normally `dur = cur`. -/
+theorem eager_every_op_durable (c : CSt D) (hl : c.lazy = false) (op : COp D)
+    (h : op.isEventWrite = true ∨ op.isBucketOp = true) (hok : cok c op = true) :
+    (cstep c op).dur = (cstep c op).cur ∧ (cstep c op).pend = [] := by
+  rcases h with h | h
+  · obtain ⟨m, k, e, hm⟩ := evwrite_form c op h hok
+    rw [e]
+    exact condCommit_eager' m k op.now (by rw [hm]; exact hl)
+  · exact bucket_ops_durable c op h hok
+
+/-- … and over histories: on the auto-committing store, after ANY history (operations that raise
+    included) the reopened database equals the connection state. -/
+theorem eager_always_durable (c0 : CSt D) (h0 : Init c0) (hl : c0.lazy = false)
+    (ops : List (COp D)) :
+    (crun c0 ops).dur = (crun c0 ops).cur ∧ (crun c0 ops).pend = [] :=
+  ((h0.eager hl).run ops).2
+
+/-- Nothing is at risk when nothing is pending, or when no transaction is open. -/
+theorem pending_consistent (c0 : CSt D) (h0 : Init c0) (ops : List (COp D)) :
+    ((crun c0 ops).pend = [] → (crun c0 ops).dur = (crun c0 ops).cur) ∧
+    ((crun c0 ops).txn = false → (crun c0 ops).dur = (crun c0 ops).cur) := by
+  refine ⟨fun hp => ?_, fun ht => (h0.clean.run ops ht).1⟩
+  obtain ⟨hc, pre, post, e, hd, hlen⟩ := pre_run c0 h0.1 h0.2.1 ops
+  rw [hp] at hlen
+  have : post = [] := List.eq_nil_of_length_eq_zero hlen
+  rw [hc, hd, e, this, List.append_nil]
+
+
+/-- `insert_many` is NOT atomic on the lazy store (which is why `single_op_atomic` excludes it):
+    after 50 buffered inserts, an `insert_many` of two upserts commits after the first one, so a
+    crash afterwards shows the first upsert without the second. -/
+theorem insertMany_can_split :
+    ∃ (c0 : CSt Nat) (ops : List (COp Nat)) (now : Int) (b : String) (es : List (Ev Nat)),
+      Init c0 ∧ c0.lazy = true ∧
+      (cstep (crun c0 ops) (.insertMany now b es)).dur ≠ (crun c0 ops).dur ∧
+      (cstep (crun c0 ops) (.insertMany now b es)).dur ≠ (cstep (crun c0 ops) (.insertMany now b es)).cur := by
+  refine ⟨Ex.c0, List.replicate 50 (.insertOne 0 "b" (Ex.ev 0)), 0, "b", [Ex.evId 1 7, Ex.evId 1 8],
+    Ex.init_c0, rfl, ?_, ?_⟩
+  · intro h
+    exact absurd (congrArg (fun s => s.events.length) h) (by set_option maxRecDepth 100000 in decide)
+  · intro h
+    exact absurd (congrArg (fun s => s.events.head?) h) (by set_option maxRecDepth 100000 in decide)
+
+/-! ## non-vacuity: the hypotheses are satisfiable on concrete non-trivial histories -/
+
+/-- a lazy history: create a bucket, 51 inserts (commit by count at the 51st), two more inserts, a
+    delete: the reopened database holds the first 51 events, the connection sees 52, three
+    elementary writes are pending -/
+example :
+    let ops : List (COp Nat) := [.createBucket 0 "x" Ex.meta0] ++ List.replicate 51 (.insertOne 0 "b" (Ex.ev 1)) ++
+      [.insertOne 1 "b" (Ex.ev 2), .insertOne 2 "b" (Ex.ev 3), .delete 3 "b" 52]
+    Init Ex.c0 ∧ Ex.c0.lazy = true ∧
+    (crun Ex.c0 ops).dur.events.length = 51 ∧ (crun Ex.c0 ops).cur.events.length = 52 ∧
+    (crun Ex.c0 ops).pend.length = 3 ∧ (crun Ex.c0 ops).dur.buckets.length = 2 ∧
+    (curHist Ex.c0 ops).length = 55 := by
+  refine ⟨Ex.init_c0, rfl, ?_, ?_, ?_, ?_, ?_⟩ <;> (set_option maxRecDepth 100000 in decide)
+
+/-- the eager store on the same kind of history -/
+example :
+    let ops : List (COp Nat) := [.insertOne 1 "b" (Ex.ev 2), .insertOne 2 "nobucket" (Ex.ev 3)]
+    Init Ex.c0e ∧ Ex.c0e.lazy = false ∧ (crun Ex.c0e ops).txn = true ∧
+    (crun Ex.c0e ops).dur.events.length = 1 ∧ (crun Ex.c0e ops).cur.events.length = 1 :=
+  ⟨Ex.init_c0e, rfl, by decide, by decide, by decide⟩
+
+/-- operations that satisfy the hypotheses of `bucket_ops_durable`, `single_op_atomic`,
+    `eager_every_op_durable` -/
+example : (COp.createBucket 0 "x" Ex.meta0 : COp Nat).isBucketOp = true ∧
+    cok Ex.c0 (.createBucket 0 "x" Ex.meta0) = true ∧
+    (COp.delete 0 "b" 1 : COp Nat).isSingleEventWrite = true ∧
+    (COp.insertMany 0 "b" [Ex.ev 1, Ex.evId 1 2] : COp Nat).isEventWrite = true ∧
+    cok Ex.c0e (.insertMany 0 "b" [Ex.ev 1, Ex.evId 1 2]) = true := by decide
+
 end AwProofs.C06
